@@ -44,13 +44,28 @@ void harness(void)
   VP_ASSUME(tries0 <= budget); /* invariant of the counter: it only grows by one per step and stops at the budget */
   tries1 = tries0 + (inc ? 1 : 0);
 
+#ifdef M_OOM
+  VP_ASSUME(deferred); /* the immediate branch allocates only inside the send step (obligation O1, send_early/sendquery OOM jobs) */
+  vp_alloc_calls   = 0; /* harness-owned counter: restart it so that the failing index is a constant */
+  vp_alloc_fail_at = M_OOM; /* C14: the M_OOM-th allocation of the step fails */
+#endif
   st = ares_requeue_query(q, &M_now, in_status, inc, NULL, deferred ? &arr : NULL);
+#ifdef M_OOM
+  vp_alloc_fail_at = 0;
+#endif
 
   if (tries1 < budget && !no_retries) {
     /* within budget: transmitted again, exactly once, not completed by requeue itself */
-    if (deferred) {
+    if (deferred && st == ARES_ENOMEM) {
+      /* the resend could not be recorded: the request must not be left behind with no connection, no deadline and no
+       * resend entry (nothing would ever retry or fail it): it reports the failure, exactly once */
+      VP_ASSERT(SQ_calls == 0 && ares_array_len(arr) == 0, "a failed deferral neither sends nor records");
+      VP_ASSERT(M_cb_count[tok] == 1 && M_cb_status[tok] == ARES_ENOMEM,
+                "FINDING requeue_oom_orphan: a request whose deferred resend cannot be recorded reports ENOMEM, once");
+      VP_WITNESS("deferral failed");
+    } else if (deferred) {
       VP_ASSERT(SQ_calls == 0 && M_cb_count[tok] == 0, "deferred requeue neither sends nor completes");
-      VP_ASSERT(st == ARES_ENOMEM || ares_array_len(arr) == 1, "deferred requeue records the request for the flush");
+      VP_ASSERT(st == ARES_SUCCESS && ares_array_len(arr) == 1, "deferred requeue records the request for the flush");
       VP_ASSERT(q->conn == NULL && q->node_queries_to_conn == NULL && q->node_queries_by_timeout == NULL,
                 "deferred request has left its connection and the timeout index");
       VP_ASSERT(q->try_count == tries1, "try accounting follows inc_try_count");
